@@ -73,7 +73,16 @@ func C17(c *core.Ctx) {
 		dirBase := asStr(pt["dir"])
 		exp := asMap(pt["exp"])
 		dir := filepath.Join(root, fmt.Sprint(n), dirBase)
-		if err := os.MkdirAll(dir, 0o755); err != nil {
+		if n%7 == 3 {
+			// the project directory is a symbolic link to a directory of another name: the link is the project directory
+			target := filepath.Join(root, fmt.Sprint(n), "Real.Target-of-link")
+			if err := os.MkdirAll(target, 0o755); err != nil {
+				return err
+			}
+			if err := os.Symlink(target, dir); err != nil {
+				return err
+			}
+		} else if err := os.MkdirAll(dir, 0o755); err != nil {
 			return err
 		}
 		defer os.RemoveAll(filepath.Join(root, fmt.Sprint(n)))
